@@ -20,6 +20,7 @@ type c03Part struct {
 	Name string   `json:"name"`
 	Frac float64  `json:"frac"`
 	Keys []string `json:"keys,omitempty"` // predicate strategy: the keys this partition's predicate accepts
+	Init int      `json:"init,omitempty"` // lookup: the limit argument the partition object is constructed with (the strategy must overwrite it with the share)
 }
 
 type c03Op struct {
@@ -56,7 +57,7 @@ func genC03(t *rapid.T) c03Case {
 	names := []string{"a", "b", "c", "d", "e"}
 	genPart := func(nameGen *rapid.Generator[string]) *rapid.Generator[c03Part] {
 		return rapid.Custom(func(t *rapid.T) c03Part {
-			p := c03Part{Name: nameGen.Draw(t, "name"), Frac: genFrac().Draw(t, "f")}
+			p := c03Part{Name: nameGen.Draw(t, "name"), Frac: genFrac().Draw(t, "f"), Init: rapid.SampledFrom([]int{1, 1, 0, 3, 10, 50}).Draw(t, "init")}
 			if c.Kind == "predicate" {
 				if c.Matcher {
 					p.Keys = []string{p.Name}
@@ -144,7 +145,7 @@ func runC03(_ *testing.T, c c03Case) (out kit.Outcome) {
 	mkBin := func(p c03Part) *c03Bin {
 		b := &c03Bin{part: p}
 		if c.Kind == "lookup" {
-			b.lookup = strategy.NewLookupPartitionWithMetricRegistry(p.Name, p.Frac, 1, reg)
+			b.lookup = strategy.NewLookupPartitionWithMetricRegistry(p.Name, p.Frac, int32(p.Init), reg)
 		} else {
 			keys := p.Keys
 			pred := func(ctx context.Context) bool {
